@@ -363,7 +363,7 @@ def _check_start_row(env, sit, ctx, bufs, msg, cell, name, log, stats):
 
 
 # ------------------------------------------------------------------ sequences
-SERVER_ALPHABET = ["EE", "CR", "Cert", "CV", "Fin"]
+SERVER_ALPHABET = ["EE", "CR", "Cert", "CV", "Fin", "CertEmpty"]
 CLIENT_ALPHABET = ["Fin", "Cert", "CV", "CertEmpty"]
 CV_TAMPERS = ["badsig", "stale", "wrongctx", "wrongkey", "wrongscheme"]
 FIN_TAMPERS = ["badmac", "stale", "wrongkey", "short"]
@@ -532,6 +532,35 @@ def run_client_flight(env, ch, tier, log, stats):
     shapes = [("Cert", "CV", "Fin"), ("CertEmpty", "Fin")] if requested else [("Fin",)]
     cases = plan_sequences(ch, tier, CLIENT_ALPHABET, shapes)
     legal_completed = 0
+    if use_psk:
+        # a known ticket identity with a binder that does not verify (RFC 8446 4.2.11: MUST abort): the
+        # server must refuse it and release no key at all, in particular not the 0-RTT receive key
+        rng = env.fresh("badbinder")
+        server = H.make_server(cfg["cred"], cfg["server_suites"], cfg["alpn"], request_client_cert=requested,
+                               ticket_store=store)
+        bufs = H.new_buffers()
+        wrong = dict(psk_of(ticket), secret=bytes(len(ticket.resumption_secret)))
+        adv = A.AdversaryClient(rng, groups=[cfg["group"]], alpn=cfg["alpn"], psk=wrong, cipher_suites=[wrong["suite"]])
+        if early:
+            adv.extensions.append((M.EXT_EARLY_DATA, b""))
+        server.keylog.marker = ("CH-bad-binder",)
+        refused = None
+        try:
+            server.handle_message(adv.client_hello(), bufs)
+        except tls.Alert as e:
+            refused = type(e).__name__
+        stats["bad_binder_hellos"] += 1
+        log("%s bad-binder -> %s, keys %s" % (cfg["flight_mode"], refused, server.keylog.events))
+        if refused is None and (server.early_data_accepted or server.session_resumed):
+            raise Violation("c11.binder", "psk-accepted-with-bad-binder early=%s" % early,
+                            "the server accepted a pre-shared key (early data accepted: %s) although the PSK binder "
+                            "of the ClientHello does not verify" % server.early_data_accepted)
+        if refused is not None and server.keylog.events:
+            raise Violation("c11.key-release", "server %s %s before the binder was verified" % (
+                server.keylog.events[0][1], server.keylog.events[0][0]),
+                "the server released keys %s while processing a ClientHello whose PSK binder does not verify (it "
+                "then refused it with %s): the early-data key must not exist before the binder is checked" % (
+                    server.keylog.events, refused))
     for seq, tampers in cases:
         rng = env.fresh("flight")
         server = H.make_server(cfg["cred"], cfg["server_suites"], cfg["alpn"], request_client_cert=requested,
